@@ -233,6 +233,13 @@ def path_condition(node, stop=None):
     parent = getattr(node, '_parent', None)
     while parent is not None and not isinstance(parent, (ast.FunctionDef, ast.AsyncFunctionDef, ast.ClassDef, ast.Module)):
         local = []
+        # conditions inside an expression: the branch of a conditional expression, the operands evaluated before this one in a short-circuit chain
+        if isinstance(parent, ast.IfExp) and child is not parent.test:
+            local.append((parent.test, child is parent.body, 'ifexp'))
+        elif isinstance(parent, ast.BoolOp) and child in parent.values:
+            k = parent.values.index(child)
+            for v in parent.values[:k]:
+                local.append((v, isinstance(parent.op, ast.And), 'and' if isinstance(parent.op, ast.And) else 'or'))
         for field in ('body', 'orelse', 'finalbody', 'handlers'):
             blk = getattr(parent, field, None)
             if isinstance(blk, list) and child in blk:
@@ -263,6 +270,26 @@ def path_condition(node, stop=None):
                 pre.append(g)
         conds = pre + conds
     return conds
+
+
+def implied_atoms(conds):
+    """Atoms (comparison / call expressions) whose truth value follows from a path condition: a true conjunction makes every conjunct true, a false
+    disjunction every disjunct false, `not` flips.  Yields (expression, truth)."""
+    def rec(t, p):
+        if isinstance(t, ast.UnaryOp) and isinstance(t.op, ast.Not):
+            yield from rec(t.operand, not p)
+        elif isinstance(t, ast.BoolOp) and isinstance(t.op, ast.And) and p:
+            for v in t.values:
+                yield from rec(v, True)
+        elif isinstance(t, ast.BoolOp) and isinstance(t.op, ast.Or) and not p:
+            for v in t.values:
+                yield from rec(v, False)
+        else:
+            yield t, p
+    for t, p, k in conds:
+        if k == 'for':
+            continue
+        yield from rec(t, p)
 
 
 def eval_path(conds, atomize, val, kinds=('if', 'guard', 'while')):
